@@ -49,6 +49,9 @@ def mkvalAll (ns : List Node) : List Node :=
       | .ccitt | .ieee | .numeric | .codetable | .flagtable | .chngRef => { n with hasVal := true, ival := -1 }
       | _ => n
 
+/-- `bufr_create_afd` calls `bufr_abort` when the associated fields in force exceed 64 bits -/
+def afAbort (ns : List Node) : Bool := ns.any fun n => decide (n.af.foldl (· + ·) 0 > 64)
+
 structure Subset where
   nodes : List Node
 deriving Repr
@@ -61,6 +64,7 @@ def createDatasubset (T : Tables) (fuel : Nat) (t : Template) : Except XErr (Sub
   | .error e => .error e
   | .ok ns =>
     let (ns', _, err) := applyTablesAll T t.edition { enforce := .strict } ns
+    if afAbort ns' then .error .abort else
     .ok ({ nodes := mkvalAll ns' }, err)
 
 /-- `bufr_expand_datasubset(dts, pos)` -/
@@ -69,6 +73,7 @@ def expandDatasubset (T : Tables) (fuel : Nat) (t : Template) (s : Subset) : Exc
   | .error e => .error e
   | .ok ns =>
     let (ns', _, err) := applyTablesAll T t.edition { enforce := .strict } ns
+    if afAbort ns' then .error .abort else
     .ok ({ nodes := mkvalAll ns' }, err)
 
 /-- `bufr_check_class31_set`: a factor that has been used for an expansion is locked -/
